@@ -7,7 +7,7 @@ LEAN_MODULES = ['YatimlModel.Props.C10']
 THEOREMS = ['YatimlModel.C10.' + t for t in [
     'C10_savorize_own_last', 'C10_savorize_no_hook_no_call', 'C10_savorize_chain',
     'C10_seasoning_error_is_recognition_error', 'C10_savorize_after_recognition',
-    'C10_recognize_own_dict_only']]
+    'C10_recognize_own_dict_only', 'C10_sweeten_chain']]
 RULE = ('single-inheritance hierarchies (plus unregistered mix-ins) with _yatiml_savorize / '
         '_yatiml_recognize defined on arbitrary subsets of the classes x documents reaching them at the '
         'top level, in lists, dicts, attributes and unions; the hook log of the real load (which hook, '
